@@ -15,6 +15,12 @@ def bad_names(rnd, cases, n_enum):
              "projects/p1/topics/" + "é" * 3, "projects/pé/subscriptions/ß", "projects/p1/subscriptions/", "projects/p1/subscriptions",
              "projects/p1/subscriptionz/s1", "projects/p1/subscription/s1", "projects/" + "/" * 40, "projects/p1/topics/t1/",
              "projects/p1/subscriptions/s1/", "\u0000", "projects/p1/topics/t1\n", " projects/p1/topics/t1"]
+    # long malformed values made of multi-byte characters, in every byte alignment (whatever byte
+    # offset an error path cuts a value at, one of these has no character boundary there)
+    for unit in ("é", "日", "😀"):
+        for pad in range(4):
+            fixed.append("x" * pad + unit * (400 // len(unit.encode())))
+            fixed.append("projects/" + "y" * pad + unit * (300 // len(unit.encode())))
     enum = [c[0] for c in cases]
     rnd.shuffle(enum)
     return fixed + enum[:n_enum]
@@ -91,7 +97,8 @@ def c17_scenarios(seed, quick, cases, call, scn):
     add("c17-stream-name", [x for n in names[:30] for x in ({"do": "sopen", "h": "s", "c": 5, "sub": n, "max": 1}, {"do": "settle"},
                                                               {"do": "sabandon", "h": "s"})])
     # malformed ack ids at every position of an otherwise valid batch
-    bad_ids = ["abc", "", "1x", "-1", "18446744073709551616", " 1", "1 ", "0x10", "1.0", "٣", "1e3", "NaN"]
+    bad_ids = ["abc", "", "1x", "-1", "18446744073709551616", " 1", "1 ", "0x10", "1.0", "٣", "1e3", "NaN"] + \
+        ["7" * pad + unit * (300 // len(unit.encode())) for unit in ("é", "日", "😀") for pad in range(4)]
     mids = []
     for b in bad_ids:
         for pos in range(3):
@@ -112,6 +119,8 @@ def c17_scenarios(seed, quick, cases, call, scn):
             mids.append(call(4, op=op, size=1, token=tokn, **kw))
     mids += [call(4, op="CreateSub", name="projects/p1/subscriptions/s8", topic=T1, ack=10, push=p)
              for p in ("ftp://x", "x", " ", "mailto:a@b", "//host/path")]
+    mids += [call(4, op=op, project=n, size=0, token="") for op in ("ListTopics", "ListSubs")
+             for n in ["", "p1", "projects", "projects/", "project/p1", "projects/p1/"] + [x for x in names if len(x) > 150][:24]]
     add("c17-numbers-tokens", mids)
     # out-of-range ack deadlines at creation: whatever the answer, the subscription (if created),
     # its topic and everything else keep working - the deadline is used by the first Pull
